@@ -74,6 +74,13 @@ Theorem C14_move_total : forall e v, env_ok e -> v <> [] -> mem_n 10 v || mem_n 
 Proof. exact move_total. Qed.
 Print Assumptions C14_move_total.
 
+(* the same for a Location that reaches the redirect instance by another door than location=
+   (headers=[("Location", v)], exc.headers, a later assignment): resolved on every call, CR/LF included *)
+Theorem C14_move_any_door : forall e v, env_ok e -> v <> [] -> has_alpha_scheme v = false ->
+  exists r, move_call e (Some v) false = JOk r /\ same_origin e r.
+Proof. exact move_call_any_door. Qed.
+Print Assumptions C14_move_any_door.
+
 Theorem C14_move_rejects_crlf : forall v a, In 10 v \/ In 13 v -> move_init (Some v) a = IValueError.
 Proof. exact move_rejects_crlf. Qed.
 Print Assumptions C14_move_rejects_crlf.
